@@ -157,11 +157,12 @@ Respond(s, r, t, b) ==
             ELSE fail
       [] t = 70 ->
             IF b \in {"honest", "skip"} /\ {"kexDone", "pnonce", "snonce"} \subseteq r.st
-            THEN IF "rhmac" \in r.st
-                 THEN IF {"guid", "rguid", "rvinfo"} \subseteq r.st /\ Has(ov)
-                      THEN ok(71, r.st, r.mod, <<[k |-> "ReplaceVoucher", s |-> s, d |-> d]>>, rv, [ov EXCEPT ![d] = "replaced"], nvouch)
-                      ELSE fail
-                 ELSE ok(71, r.st, r.mod, <<>>, rv, ov, nvouch)
+            THEN (IF "rhmac" \in r.st
+                  THEN IF {"guid", "rguid", "rvinfo"} \subseteq r.st /\ Has(ov)
+                       THEN ok(71, r.st, r.mod, <<[k |-> "ReplaceVoucher", s |-> s, d |-> d]>>, rv, [ov EXCEPT ![d] = "replaced"], nvouch)
+                       ELSE fail
+                  ELSE ok(71, r.st, r.mod, <<>>, rv, ov, nvouch))
+                 \cup (IF r.taint THEN fail ELSE {})      \* what an accepted mutant left behind may not make a voucher
             ELSE fail
       [] OTHER -> fail
 
@@ -271,10 +272,14 @@ Mutant(s, t) ==
                 \* the honest client has not moved; an accepted mutant is a genuine message on record.
                 \* An accepted TO0.OwnerSign mutant may have altered what TO0 does not authenticate (the
                 \* device certificate chain), so the registration may be one nobody can prove the key for.
-                \E reg \in (IF t = 22 /\ o.resp = 23 THEN {"reg", "regnc"} ELSE {"asis"}) :
+                \* ... or asked for a time-to-live of zero / addresses nobody can use: a registration that
+                \* is already over ("expired").
+                \E reg \in (IF t = 22 /\ o.resp = 23 THEN {"reg", "regnc", "expired"} ELSE {"asis"}) :
                 Apply("mutant", s, t, "mutant", [o EXCEPT !.r.cnext = r.cnext,
                                                           !.r.sent = IF o.resp = 255 THEN o.r.sent ELSE o.r.sent \cup {t},
-                                                          !.r.taint = o.r.taint \/ (t = 68 /\ o.resp = 69),
+                                                          \* an accepted mutant of 66 or 68 leaves the owner with a replacement
+                                                          \* HMAC / MTU / devmod the device did not send
+                                                          !.r.taint = o.r.taint \/ (t = 68 /\ o.resp = 69) \/ (t = 66 /\ o.resp = 67),
                                                           !.rv = IF reg = "asis" THEN o.rv ELSE [o.rv EXCEPT ![r.dev] = reg]])
        ELSE /\ last' = Record("mutant", s, t, "own", "mutant", 255, <<>>, r.live)
             /\ UNCHANGED <<sess, rv, ov, nvouch, cred>>
